@@ -109,6 +109,8 @@ func runC20(seed int64, tier string, sc *Script) map[string]any {
 	for _, repo := range repos {
 		for _, d := range digs {
 			parseOne("h:5/" + repo + "@" + d)
+			// a digest introduced by ":" is a tag with a colon in it: outside the grammar
+			parseOne("h:5/" + repo + ":" + d)
 			for _, t := range tags[:4] {
 				parseOne("h:5/" + repo + ":" + t + "@" + d)
 			}
@@ -164,7 +166,7 @@ func runC20(seed int64, tier string, sc *Script) map[string]any {
 		}
 	}
 	for _, d := range digs {
-		inputs = append(inputs, d, "h:5/a/b@"+d, "h:5/a/b:t@"+d, "h:5/a/c@"+d, "x:5/a/b@"+d, "@"+d)
+		inputs = append(inputs, d, "h:5/a/b@"+d, "h:5/a/b:"+d, "h:5/a/b:t@"+d, "h:5/a/c@"+d, "x:5/a/b@"+d, "@"+d)
 	}
 	inputs = append(inputs, "h:5/a/b:v1", "h:5/a/b", "h:5/a/b:", "x/a/b:v1", "a/b:v1", "v1?x=1", "v1#f", "v1%2F", "../x", "a/../b")
 	enumStrings([]byte("aA.:@/?#%"), 3, func(s string) { inputs = append(inputs, s) })
